@@ -52,6 +52,7 @@ CONSTANTS
   Modes,           \* security modes explored: subset of {"None", "Sign", "SignAndEncrypt"}
   Moves,           \* subset of {"damage", "drop", "replay", "hold"}
   Damages,         \* damage classes the adversary may apply
+  Injects,         \* classes of frames of its own the adversary may insert between chunks ("inject" move)
   Budget,          \* number of adversary moves per behaviour
   MaxChunks,       \* negotiated MaxChunkCount (0 = unlimited)
   Sweeps,          \* set of [kind |-> "none"] (no sweep) or [kind |-> "sweep.trunc" | "sweep.byte", from |-> k]:
@@ -277,7 +278,17 @@ Replay(j) == /\ Alive /\ "replay" \in Moves /\ budget > 0
              /\ Recv(wire[j], "none", "replay")
              /\ budget' = budget - 1 /\ Age /\ UNCHANGED <<sender, held>>
 
-Next == \/ \E m \in Msgs : Pass(m) \/ Drop(m) \/ Hold(m) \/ \E d \in Damages : Damage(m, d)
+\* a frame of the adversary's own making (an OPN frame naming the policy None, a frame of an unknown
+\* type ...) between two chunks of the stream: refused, and it must not change what happens to
+\* later chunks -- in particular a forged chunk is still refused afterwards
+Pseudo(g) == [id |-> 0, seq |-> 0, req |-> 0, msg |-> 0, part |-> 0, kind |-> "X"]
+Inject(g) == /\ Alive /\ "inject" \in Moves /\ budget > 0 /\ g \in Injects
+             /\ \E m \in Msgs : CanSend(m)             \* not after the last chunk
+             /\ Recv(Pseudo(g), g, "inject")
+             /\ budget' = budget - 1 /\ Age /\ UNCHANGED <<sender, held>>
+
+Next == \/ \E g \in Injects : Inject(g)
+        \/ \E m \in Msgs : Pass(m) \/ Drop(m) \/ Hold(m) \/ \E d \in Damages : Damage(m, d)
         \/ Release
         \/ \E j \in 1..Len(wire) : Replay(j)
 
@@ -301,7 +312,7 @@ InvNoDoubleDelivery ==
 
 \* C09: only intact chunks of the peer are ever accepted; damaged ones are refused without a crash
 InvIntegrity ==
-  /\ \A i \in 1..Len(rc.accepted) : rc.accepted[i].dmg = "none"
+  /\ \A i \in 1..Len(rc.accepted) : rc.accepted[i].dmg = "none" /\ rc.accepted[i].id > 0
   \* whatever chunk comes next, a damaged version of it is refused (evaluated in every state)
   /\ \A m \in Msgs : CanSend(m) =>
         \A d \in Damages \ (DesyncDamage \cup CloseDamage) : Outcome(rc, Chunk(m), d, FlagsC) \in {"reject"}
